@@ -32,6 +32,11 @@ struct Replay {
         if (i == kv.end()) return d;
         if (i->second == "TRUE") return 1;
         if (i->second == "FALSE") return 0;
+        if (i->second.size() >= 3 && i->second[0] == '\'') {      // a character literal: 'A', '\n', '\\'
+            const std::string& c = i->second;
+            if (c[1] != '\\') return (unsigned char)c[1];
+            switch (c[2]) { case 'n': return '\n'; case 't': return '\t'; case 'r': return '\r'; case '0': return 0; case '\\': return '\\'; case '\'': return '\''; default: return strtoll(c.c_str() + 2, 0, 8); }
+        }
         return strtoll(i->second.c_str(), 0, 0);
     }
     // bytes of an array witness "name[i]"; missing elements are `fill`
